@@ -178,7 +178,8 @@ def oracle(scaled: List[List[Any]], html_ids, hrefs, tokens) -> Tuple[Optional[s
     expected: List[Tuple[Tuple[int, Optional[int]], str]] = []
     tno = 0
     names_at: Dict[Tuple[int, Optional[int]], str] = {}
-    for rs in scaled:
+    recipe_of: Dict[int, int] = {}
+    for ri, rs in enumerate(scaled):
         roots: List[Tuple[int, Any]] = []
         for r in rs:
             for tree in r.recipe_trees:
@@ -188,6 +189,7 @@ def oracle(scaled: List[List[Any]], html_ids, hrefs, tokens) -> Tuple[Optional[s
                         if root == ref.sub_recipe:
                             pos = (k, None if len(root.output_names) == 1 else ref.output_index)
                     expected.append((pos, str(ref.sub_recipe.output_names[ref.output_index])))  # type: ignore
+                recipe_of[tno] = ri
                 if isinstance(tree, R.SubRecipe):
                     roots.append((tno, tree))
                     for j, nm in enumerate(tree.output_names):
@@ -207,7 +209,9 @@ def oracle(scaled: List[List[Any]], html_ids, hrefs, tokens) -> Tuple[Optional[s
             info["other"].append(f"link {h!r} (to {name!r}) lands on element {found} instead of its definition {pos}")
         elif len(found) > 1:
             others = [names_at.get(p, "?") for p in found if p != pos]
-            info["duplicates"].append({"id": h[1:], "name": name, "others": others})
+            info["duplicates"].append({"id": h[1:], "name": name, "others": others,
+                                       "same_recipe": all(recipe_of.get(p[0]) == recipe_of.get(pos[0]) for p in found),
+                                       "distinct_outputs": len(set(found)) == len(found)})
     if info["other"]:
         return info["other"][0], info
     if info["duplicates"]:
@@ -269,12 +273,13 @@ def replay(inp: Any) -> Case:
 
 
 def known_match(finding: Any, case: Case) -> bool:
-    """F8: different output names of one recipe sanitise to the same id. Accept ONLY pure duplicate-id cases in
-    which every link still reaches (one of) the element(s) carrying its id, the defining element among them, and the
-    colliding outputs have different names."""
+    """F8: different outputs of ONE independent recipe whose (scaled, formatted) names sanitise to the same id.
+    Accept ONLY pure duplicate-id cases: every link still reaches an element carrying its id, its defining element is
+    among them, and all the elements sharing the id are different outputs of the same independent recipe (ids shared
+    ACROSS independent recipes, dangling links and links to a wrong element are never accepted)."""
     if finding.get("matches") != "id_collision_sanitised":
         return False
     info = (case.impl or {}).get("oracle") or {}
     if info.get("other") or not info.get("duplicates"):
         return False
-    return all(d["others"] and all(o != d["name"] for o in d["others"]) for d in info["duplicates"])
+    return all(d["others"] and d.get("same_recipe") and d.get("distinct_outputs") for d in info["duplicates"])
